@@ -163,15 +163,55 @@ class Expander:
             outer = outer.outer
         return self.global_name(func, name)
 
+    def const_global(self, q: str) -> Term:
+        """A module-level numeric constant is its value (`_ATOL = 1e-15` ... `atol=_ATOL`)."""
+        modname, _, cname = q.rpartition(".")
+        m = self.repo.modules.get(modname)
+        if m is not None and cname in m.constants:
+            e = m.constants[cname]
+            if isinstance(e, ast.UnaryOp) and isinstance(e.op, ast.USub) and isinstance(e.operand, ast.Constant):
+                v = e.operand.value
+                if isinstance(v, (int, float)) and not isinstance(v, bool):
+                    return ("const", -v)
+            if isinstance(e, ast.Constant) and isinstance(e.value, (int, float)) and not isinstance(e.value, bool):
+                return ("const", e.value)
+        return ("global", q)
+
     def global_name(self, func: Func, name: str) -> Term:
         q = self.repo.resolve_in_module(func.module, name)
         if q is not None:
-            return ("global", q)
+            return self.const_global(q)
         if hasattr(builtins, name):
             return ("builtin", name)
         return ("unknown", name)
 
+    def _is_identity_def(self, func: Func, d: Def) -> bool:
+        """A 'self may have been mutated by self.m(...)' definition whose callee assigns no attribute."""
+        if d.kind != "mutcall" or not str(d.extra).startswith("call:") or func.cls is None or d.node is None:
+            return False
+        mname = str(d.extra)[5:]
+        is_method = self.repo.find_method(func.cls, mname) is not None or any(mname in sc.methods for sc in self.repo.subclasses(func.cls.qualname))
+        return is_method and self._writes(func.cls.qualname, mname, set()) == set()
+
+    def _effective_defs(self, func: Func, defs):
+        if not any(d.kind == "mutcall" for d in defs):
+            return defs
+        df = self.df(func)
+        out, seen, stack = set(), set(), list(defs)
+        while stack:
+            d = stack.pop()
+            if d.id in seen:
+                continue
+            seen.add(d.id)
+            if self._is_identity_def(func, d):
+                same = [x for x in df.node_defs.get(d.node, []) if x.var == d.var and x.id < d.id]
+                stack.extend([same[-1]] if same else list(df.reaching(d.node, d.var)))
+            else:
+                out.add(d)
+        return frozenset(out)
+
     def _defs_term(self, func: Func, name: str, defs, depth: int) -> Term:
+        defs = self._effective_defs(func, defs)
         if not defs:
             return ("unbound", name)
         return phi(self._def_term(func, d, depth) for d in sorted(defs, key=lambda d: d.id))
@@ -264,6 +304,11 @@ class Expander:
             if str(d.extra).startswith("call:"):
                 # a method call on self: a barrier for attribute reads only; its
                 # arguments are not part of the value of ``self``
+                if func.cls is not None:
+                    mname = str(d.extra)[5:]
+                    is_method = self.repo.find_method(func.cls, mname) is not None or any(mname in sc.methods for sc in self.repo.subclasses(func.cls.qualname))
+                    if is_method and self._writes(func.cls.qualname, mname, set()) == set():
+                        return prev  # the callee (and what it calls on self) assigns no attribute: self is unchanged
                 return ("mut", prev, str(d.extra), ("unknown", "selfcall"))
             call = self.expr(d.value, func, node, {}, depth) if d.value is not None else ("unknown", "del")
             return ("mut", prev, str(d.extra), call)
@@ -337,7 +382,7 @@ class Expander:
                 if not is_local:
                     q = self.repo.resolve_in_module(func.module, dn)
                     if q is not None:
-                        return ("global", q)
+                        return self.const_global(q)
             return mk_attr(X(e.value), e.attr, lambda m, a, func=func: self.method_may_write(func, m, a))
         if isinstance(e, ast.Call):
             fn = X(e.func)
@@ -734,6 +779,22 @@ def mk_attr(base: Term, name: str, may_write=None) -> Term:
     return ("attr", cur, name)
 
 
+def ifexp_to_phi(t):
+    """Forget the conditions: every conditional expression becomes the merge of its two
+    branches.  `v = a if c else b`, `if c: v = a else: v = b` and a helper with an early
+    return then give the same term."""
+    if not isinstance(t, tuple) or not t:
+        return t
+    if isinstance(t[0], str):
+        if t[0] == "ifexp":
+            return phi([ifexp_to_phi(t[2]), ifexp_to_phi(t[3])])
+        if t[0] in ("const", "param", "global", "builtin", "func", "rec", "unknown", "unbound", "deep", "root", "exc"):
+            return t
+        if t[0] == "phi":
+            return phi(ifexp_to_phi(a) for a in t[1])
+    return tuple(ifexp_to_phi(x) for x in t)
+
+
 def root_of(t: Term) -> Term:
     """Strip attribute/subscript/store wrappers down to the root value."""
     while t[0] in ("attr", "sub", "setattr", "update", "mut", "aug"):
@@ -771,6 +832,8 @@ def _project(v: Term, path: tuple[int, ...]) -> Term:
             v = v[1][i]
         elif v[0] == "phi":
             v = phi(_project(a, (i,)) for a in v[1])
+        elif v[0] == "ifexp":
+            v = ("ifexp", v[1], _project(v[2], (i,)), _project(v[3], (i,)))
         else:
             v = ("item", v, i)
     return v
